@@ -17,7 +17,7 @@ pub const OP_G_DECREMENT: u8 = 9;
 pub const OP_G_SET: u8 = 10;
 pub const OP_H_RECORD: u8 = 11;
 
-pub const SMAX: usize = 8;
+pub const SMAX: usize = 6;
 /// a short string copied by value
 #[derive(Clone, Copy, PartialEq, Eq, Debug)]
 pub struct S {
@@ -49,7 +49,7 @@ pub struct Ev {
     pub op: u8,
     pub name: S,
     pub nlabels: usize,
-    pub labels: [(S, S); 3],
+    pub labels: [(S, S); 2],
     pub unit: Option<Unit>,
     pub desc: S,
     pub level: u8,
@@ -61,12 +61,12 @@ pub struct Ev {
 }
 impl Ev {
     pub const ZERO: Ev = Ev {
-        rec: 0, op: 0, name: S::EMPTY, nlabels: 0, labels: [(S::EMPTY, S::EMPTY); 3], unit: None, desc: S::EMPTY,
+        rec: 0, op: 0, name: S::EMPTY, nlabels: 0, labels: [(S::EMPTY, S::EMPTY); 2], unit: None, desc: S::EMPTY,
         level: 0, target: S::EMPTY, module: None, bits: 0, handle_of: 0,
     };
 }
 
-pub const LOGMAX: usize = 12;
+pub const LOGMAX: usize = 8;
 pub static mut LOG: [Ev; LOGMAX] = [Ev::ZERO; LOGMAX];
 pub static mut NLOG: usize = 0;
 /// recorders whose installing borrow has ended (bit i) — a call on one of them is a use after scope
@@ -137,7 +137,7 @@ impl Rec {
         e.name = S::of(key.name());
         let mut n = 0;
         for l in key.labels() {
-            assert!(n < 3, "double: too many labels for the log");
+            assert!(n < 2, "double: too many labels for the log");
             e.labels[n] = (S::of(l.key()), S::of(l.value()));
             n += 1;
         }
